@@ -13,7 +13,7 @@ FLAGSETS = {'G': G.G, 'G|D': G.G | G.D, 'G|E': G.G | G.E, 'E': G.E, 'X|G|E': G.X
 def run(chk, tier, seed):
     pats = globrun.small_patterns()
     fsets = ['G', 'G|D', 'G|E', 'X|G|E', 'G|L', 'GL|E', 'G|O', 'X|GL'] if tier == 'quick' else list(FLAGSETS)
-    specs = {k: trees.NAMED[k] for k in (('links', 'basic', 'deep2', 'acyclic', 'relink') if tier == 'quick' else trees.NAMED)}
+    specs = {k: trees.NAMED[k] for k in (('links', 'basic', 'deep2', 'acyclic', 'relink', 'loops') if tier == 'quick' else trees.NAMED)}
     rnd = random.Random(seed * 17 + 4)
     for i in range(2 if tier == 'quick' else 30):
         specs[f'random{i}'] = trees.random_spec(rnd, 7)
@@ -53,6 +53,8 @@ def run(chk, tier, seed):
                                 (f'glob returns {r[kind][:5]} but globmatch(REALPATH) rejects them' if kind == 'only_glob'
                                  else f'globmatch(REALPATH) accepts {r[kind][:5]} which glob does not return'))
                         chk.violation(dict(base, obligation='C04.bounded.glob==globmatch(REALPATH)', kind=kind, witness=r[kind][0], paths=r[kind][:5]), what, rp)
+    from checks import fixed_clauses
+    fixed_clauses.newline_names(chk, 'C04')
     chk.rule = ('bounded stand-in: for every (tree, pattern, flags[, exclude]) the set glob() returns (trailing separators ignored) is compared with the set of candidates '
                 '(every entry of the tree, every directory also with a trailing separator, everything glob returned, absent names) that globmatch(..., REALPATH, same root) '
                 'accepts; plus: a nonexistent path never matches, a relative pattern never matches an absolute spelling; non-trivial = non-empty result')
